@@ -104,6 +104,17 @@ func cmdScen(seedS, tier string) int {
 			}
 		}
 	}
+	// deterministic replay: a closed connection still listed next to an open one
+	{
+		line, viol := runClosedListed()
+		fmt.Println(line)
+		if len(viol) > 0 {
+			violRuns++
+			for _, v := range viol {
+				kinds[kind(v)]++
+			}
+		}
+	}
 	// a long outage: the back-off reaches its cap and stays there for several attempts
 	{
 		line, viol := runLongOutage(3, 6500*time.Millisecond)
